@@ -12,6 +12,9 @@ IMPORTS = 'From PV Require Import Client.ErrorMap.'
 
 PROTO_HASH = 'PtNairobiyssHuh87hEhfVBGCVrK3WnS8Z2FT4ymB5tAa4r1nQf'
 UNREG = ['foo', 'bar_baz']
+# protocol names as they occur on real networks (digits, '-', '_', mixed case) and chunks with other non-word characters
+PROTOCOLS = ['018-Proxford', 'alpha', 'PtNairobi', 'genesis', '000-Ps9mPmXa', '019-PtParisB', 'demo_counter', 'Ps9mPmXaiyrF']
+ODD = ['a-b', 'x y', 'tez-', '-tez', 'michelson_v1:', 'script_rejected!', '(tez)', 'a/b', '0', '_', 'proto-x', 'Proto']
 
 
 _INTERN: dict = {}
@@ -129,8 +132,9 @@ def run(ctx: lib.Ctx) -> None:
     import pytezos.rpc.errors as errors_mod  # noqa: F401  (registers the classes)
     import pytezos.rpc.node as node_mod
 
-    ctx.rule = ('exhaustive: every identifier of 1..4 chunks (thorough: 1..5; quick samples 2500 of the 5-chunk ones) over {proto, a protocol hash, every '
+    ctx.rule = ('exhaustive: every identifier of 1..4 chunks (thorough: 1..5; quick samples 1500 of the 5-chunk ones) over {proto, a protocol hash, every '
                 'component of a registered key, two unregistered words} as the last error of a list of 1..4 errors, against the real registry; '
+                'realistic protocol names (018-Proxford, alpha, 000-Ps9mPmXa, ...) and chunks with non-word characters in the prefix position x every <category>.<name>, and at random positions; '
                 'the same code under 40 (thorough 300) substituted registries keyed by full ids, prefix-less ids, names and categories; empty and '
                 'degenerate identifiers. non-trivial = some variant of the identifier is registered; distinct = distinct (registry, error ids)')
     real = dict(node_mod.RpcError.__handlers__)
@@ -190,8 +194,21 @@ def run(ctx: lib.Ctx) -> None:
         for t in itertools.product(alpha, repeat=n):
             add(0, prefix_errors() + ['.'.join(t)], f'real:chunks{n}')
     if not ctx.thorough:
-        for _ in range(2500):
+        for _ in range(1500):
             add(0, prefix_errors() + ['.'.join(ctx.rng.choice(alpha) for _ in range(5))], 'real:chunks5-sampled')
+    # realistic protocol names in the prefix position, every <category>.<name> (and one component more / less) behind them
+    for pname in PROTOCOLS + ODD[:4]:
+        for t in itertools.product(alpha[2:], repeat=2):
+            add(0, prefix_errors() + ['.'.join(('proto', pname) + t)], 'real:protocol-names')
+        for c in alpha[2:]:
+            add(0, prefix_errors() + [f'proto.{pname}.{c}'], 'real:protocol-names')
+            add(0, prefix_errors() + [f'{pname}.{c}'], 'real:protocol-names')
+    # odd characters anywhere
+    wide = alpha + PROTOCOLS + ODD
+    for _ in range(ctx.n(1500, 20000)):
+        n = ctx.rng.choice([1, 2, 3, 4, 4, 4, 5])
+        chunks = [ctx.rng.choice(wide if ctx.rng.random() < 0.5 else alpha) for _ in range(n)]
+        add(0, prefix_errors() + ['.'.join(chunks)], 'real:odd-characters')
     # a more specific / differently classified error EARLIER in the list must not win
     for a, b in itertools.product(['proto.X.michelson_v1.script_rejected', 'michelson_v1.bad_return', 'tez.x', 'foo.bar', 'proto.X.michelson_v1.runtime_error'], repeat=2):
         add(0, [a, b], 'real:pairs')
@@ -213,9 +230,10 @@ def run(ctx: lib.Ctx) -> None:
             r = ctx.rng.random()
             if r < 0.35:    # an identifier built around a registered key
                 k = ctx.rng.choice(keys)
-                ident = ctx.rng.choice([k, 'proto.' + PROTO_HASH + '.' + k, 'proto.' + PROTO_HASH + '.x.' + k, k + '.zz', 'foo.' + k, k + '.' + ctx.rng.choice(alpha)])
+                ident = ctx.rng.choice([k, 'proto.' + PROTO_HASH + '.' + k, 'proto.' + ctx.rng.choice(PROTOCOLS) + '.' + k, 'proto.' + PROTO_HASH + '.x.' + k, k + '.zz', 'foo.' + k, k + '.' + ctx.rng.choice(alpha)])
             else:
-                ident = '.'.join(ctx.rng.choice(alpha) for _ in range(ctx.rng.choice([1, 2, 2, 3, 4, 4, 4, 5])))
+                pool = alpha if ctx.rng.random() < 0.7 else alpha + PROTOCOLS + ODD
+                ident = '.'.join(ctx.rng.choice(pool) for _ in range(ctx.rng.choice([1, 2, 2, 3, 4, 4, 4, 5])))
             add(ri, prefix_errors() + [ident], 'substituted')
 
     prelude = intern_prelude() + regs_def
@@ -229,7 +247,7 @@ def run(ctx: lib.Ctx) -> None:
         if why:
             ch = ids[-1].split('.') if ids else []
             canonical = len(ch) in (1, 2) or (len(ch) == 4 and ch[0] == 'proto')
-            fails.append((ri != 0, '' in ch, not canonical, len(ids), len(ids[-1]) if ids else 0, idx, why))
+            fails.append((ri != 0, '' in ch, any(c in ODD for c in ch), not canonical, len(ids), len(ids[-1]) if ids else 0, idx, why))
     fails.sort()
     for *_k, idx, why in fails[:3]:
         ri, ids, obs = meta[idx]
